@@ -16,7 +16,7 @@ pub fn on_assignment(
         element: converted_left,
         ..
     } = left.at_pos(pos).convert_in(ctx, ExprContext::Assignment)?;
-    assignment_post_conversion_validation_rules::validate(&converted_left, &converted_right)?;
+    assignment_post_conversion_validation_rules::validate(&converted_left, &converted_right, pos)?;
     Ok(Statement::assignment(converted_left, converted_right))
 }
 
@@ -61,7 +61,17 @@ mod assignment_post_conversion_validation_rules {
     pub fn validate(
         left_side: &Expression,
         right_side: &ExpressionPos,
+        pos: Position,
     ) -> Result<(), LintErrorPos> {
+        if !matches!(
+            left_side,
+            Expression::Variable(_, _)
+                | Expression::ArrayElement(_, _, _)
+                | Expression::Property(_, _, _)
+        ) {
+            // e.g. F(1) = 2 where F is a function
+            return Err(LintError::DuplicateDefinition.at_pos(pos));
+        }
         if right_side.can_cast_to(left_side) {
             Ok(())
         } else {
